@@ -207,6 +207,10 @@ class ESSearch(ABC):
                     * self.scale
                 )
 
+        if us.shape[0] == 0:
+            # No candidate survived the feasibility filters: empty search set
+            return us, z
+
         return us[0], z[0]
 
 
